@@ -6,7 +6,7 @@ CONSTANTS
   Weak <- NoWeak
   MaxConn = 1
   MaxSend = 2
-  MaxAdv = 5
+  MaxAdv = 4
   CacheMax = 16
   Asks = {FALSE}
 INVARIANTS Attribution DialSafety Whitelist
